@@ -7,7 +7,7 @@ namespace CifModel.Lemmas.Ladder
 open CifModel.Model.Ladder CifModel.Spec.HeapTrace
 
 /-- rearrangement of list expressions up to permutation -/
-macro "perm_ac" : tactic => `(tactic| (rw [List.perm_iff_count]; intro x; (try simp only [List.count_cons, List.count_append, List.count_nil, List.append_assoc, List.cons_append, List.nil_append, List.reverse_nil, List.append_nil, Option.toList, Owned.ids, Owned.idsList]) <;> omega))
+macro "perm_ac" : tactic => `(tactic| (rw [List.perm_iff_count]; intro x; (try simp only [List.count_cons, List.count_append, List.count_nil, List.append_assoc, List.cons_append, List.nil_append, List.reverse_nil, List.append_nil, List.map_cons, List.map_nil, Option.toList, Owned.ids, Owned.idsList]) <;> omega))
 
 theorem idsList_append (a b : List Owned) : Owned.idsList (a ++ b) = Owned.idsList a ++ Owned.idsList b := by
   induction a with
